@@ -9,7 +9,7 @@ From TU Require C10_Model C11_Model C12_Model C18_Model.
 From Coq Require Reals Qreals.
 From Flocq Require Core IEEE754.BinarySingleNaN.
 From Coq Require Lra.
-From TU Require C13_Float C13_FloatProofs C13_FloatClose.
+From TU Require C13_Float C13_FloatProofs C13_FloatClose C13_FloatMean.
 Open Scope nat_scope.
 
 (** ** F-beta *)
@@ -257,6 +257,24 @@ Theorem accuracy_fl_range : forall p t x,
   (Z.of_nat (length p) < 2 ^ 53)%Z -> accuracy_fl p t = Some x -> fin01 x.
 Proof. exact accuracy_fl_range_l. Qed.
 Print Assumptions accuracy_fl_range.
+
+(** [_mean_edit_distance]: rayon's parallel f64 sum as a balanced split tree ([tree_sum], leaves folded from
+    -0.0, nodes (-0.0 + l) + r): over n <= 2^53 floats in [0,1] it is finite, non-negative and at most n,
+    for every fuel (= every depth at which splitting stops) *)
+Theorem tree_sum_fl_range : forall fuel (l : list f64), Forall fin01 l -> (Z.of_nat (length l) <= 2 ^ 53)%Z ->
+  (is_finite (tree_sum fuel l) = true /\ 0 <= B2R (tree_sum fuel l)) /\
+  B2R (tree_sum fuel l) <= IZR (Z.of_nat (length l)).
+Proof. exact C13_FloatMean.tree_sum_range. Qed.
+Print Assumptions tree_sum_fl_range.
+
+(** mean normalised edit distance in binary64: finite and in [0,1] (texts shorter than 2^53 characters,
+    fewer than 2^53 sequences); uses C12 [norm_le_1] for the per-pair values *)
+Theorem mean_ed_fl_range : forall s t x,
+  Forall (fun p => (Z.of_nat (length (fst p)) < 2 ^ 53)%Z /\ (Z.of_nat (length (snd p)) < 2 ^ 53)%Z) (C12_Model.zip s t) ->
+  (Z.of_nat (length s) < 2 ^ 53)%Z ->
+  mean_ed_fl true s t = Some x -> fin01 x.
+Proof. exact C13_FloatMean.mean_ed_fl_range_l. Qed.
+Print Assumptions mean_ed_fl_range.
 
 (** (5) the binary64 results of the repaired [_f1] against the rational model ([C13_Model.f1], about which
     [f1_range] ... [check_run] above speak), for a rational beta equal to the float beta: F-beta within
